@@ -712,7 +712,13 @@ class DefaultCodec(Codec):
             # If this is an InMemoryPartition or OnDiskPartition, remember where all of its keys
             # (including those inherited from its parents) were written so that it can be
             # referred to when merging partitions in the future
-            if hasattr(obj, "_output_keys") and hasattr(obj, "_parent_data_source"):
+            # (not when it is only being staged as a value of an OnDiskPartition: the staging
+            # area is temporary and must not replace the record of where the partition lives)
+            if (
+                hasattr(obj, "_output_keys")
+                and hasattr(obj, "_parent_data_source")
+                and not getattr(data_source, "is_staging_area", False)
+            ):
                 obj._output_keys = dict(index)
                 obj._parent_data_source = data_source
 
